@@ -555,7 +555,8 @@ _more("C09",
       "that both are u16 values; the atomic condition is tight (c09_seq_sub_shift_tight). Non-vacuity: c09_guard_satisfiable (a scenario "
       "wrapping both numberings with out-of-order data, an RTO, a SACK fast recovery and both FINs). Outside the guard the clause is FALSE "
       "of the model: c09_shift_outside_guard_refuted (two segments outstanding at snd_una 65534, ACK number 30000: ignored; relabelled by "
-      "10 it acknowledges everything) - class D4.",
+      "10 it acknowledges everything) - class D4. c09_guard_trace_shift: the guard does not depend on the labelling (the relabelled "
+      "scenario is inside it as well).",
       "the guard of the theorem (c09_guard_trace) needs the model state, not only the fingerprint; it can be evaluated on the inputs of a "
       "metamorphic case by the extracted model (c09_guard_trace_cubic, not yet registered in the driver). The fingerprint-level guard "
       "c09_within_tol used by the check is NOT proved to imply it (needs bounds on how far the numbers move inside one poll: open); "
